@@ -124,9 +124,11 @@ def gen_random(rng: random.Random, max_blocks: int) -> List[Block]:
     rank = {n: i for i, n in enumerate(rng.sample(pool, len(pool)))}
     for _ in range(k):
         n = rng.choice(pool)
-        scripts = [[f"{n}1"], [f"{n}1", f"{n}2"], [], ["shared"], [f"{n}1", "shared", f"{n}1"]]
+        scripts = [[f"{n}1"], [f"{n}1", f"{n}2"], [], ["shared"], [f"{n}1", "shared", f"{n}1"],
+                   # scripts that differ from the first one only in white space / blank lines / letter case are DIFFERENT scripts
+                   [f"  {n}1"], [f"{n}1 "], [f"{n}1", ""], ["", f"{n}1"], [f"{n}1".upper()], [f"\t{n}1"]]
         if style < 0.7:
-            s = scripts[0] if rng.random() < 0.9 else rng.choice(scripts)
+            s = scripts[0] if rng.random() < 0.85 else rng.choice(scripts)
             cand = [m for m in pool if rank[m] < rank[n]]  # acyclic by construction
         else:
             s = rng.choice(scripts)
